@@ -249,9 +249,56 @@ def r4_edge_update_replaces_exactly_one_edge(ctx, rid):
             raise AnalysisError(f"{rid}: unrecognised selection operator in `{norm(st)}`")
 
 
+
+def r5_cached_defaults_come_from_the_template(ctx, rid):
+    """OperatorTemplate.apply caches (operator IR, default values) per operator and fills every variable a later node does not
+    override from those cached defaults.  Each cached default must therefore be the template's own declared value (taken from
+    self.variables), never the per-call `values` argument: otherwise the first node's override becomes the default of every
+    later node that shares the operator (and a Python/YAML definition differs from its to_yaml round trip)."""
+    eff = ctx.effects
+    f = ctx.repo.get_func(FO, "OperatorTemplate.apply")
+    if "values" not in f.params:
+        raise AnalysisError(f"{rid}: OperatorTemplate.apply lost its `values` parameter")
+    # the dict that is cached: second component of the tuple stored into self.cache[key]
+    stores = [st for st in walk_shallow(f.node) if isinstance(st, ast.Assign) and len(st.targets) == 1 and isinstance(st.targets[0], ast.Subscript)
+              and isinstance(st.targets[0].value, ast.Attribute) and st.targets[0].value.attr == "cache"]
+    if len(stores) != 1 or not (isinstance(stores[0].value, ast.Tuple) and len(stores[0].value.elts) == 2 and isinstance(stores[0].value.elts[1], ast.Name)):
+        raise AnalysisError(f"{rid}: the cache store `self.cache[key] = (instance, defaults)` was not recognised")
+    dname = stores[0].value.elts[1].id
+    an = analyse(eff, f, None)
+    writes = [st for st in walk_shallow(f.node) if isinstance(st, ast.Assign) and len(st.targets) == 1 and isinstance(st.targets[0], ast.Subscript)
+              and isinstance(st.targets[0].value, ast.Name) and st.targets[0].value.id == dname]
+    if not writes:
+        raise AnalysisError(f"{rid}: no store into the cached defaults `{dname}` found")
+    for w in writes:
+        orig = an.origins(w.value)
+        bad = [o for o in orig if o[0] == "P" and o[1] == "values"]
+        # also a direct syntactic mention of `values` in the stored expression
+        mentions = any(isinstance(n, ast.Name) and n.id == "values" for n in ast.walk(w.value))
+        facts = {"stored": ast.unparse(w.value), "origins": sorted(fmt_origin(o) for o in orig)}
+        if bad or mentions:
+            ctx.violation(rid, f, w, f"the cached default of a variable is taken from the per-call `values` argument (`{ast.unparse(w.value)}`): the "
+                                     f"first node's override becomes the default of every later node sharing this operator", facts,
+                          label="cached operator defaults come from the template")
+        else:
+            ctx.ok(rid, f, w, "the cached default is the template's own declared value", facts, label="cached operator defaults come from the template")
+    # the per-call dict is only filled, from the cached defaults, where the caller gave no value
+    fills = [st for st in walk_shallow(f.node) if isinstance(st, ast.Assign) and len(st.targets) == 1 and isinstance(st.targets[0], ast.Subscript)
+             and isinstance(st.targets[0].value, ast.Name) and st.targets[0].value.id == "values"]
+    cfg = ctx.cfg(f)
+    for st in fills:
+        guards = [d for d in cfg.dominators(st) if isinstance(d, ast.If) and any(contains(b, st) for b in d.body)
+                  and isinstance(d.test, ast.Compare) and isinstance(d.test.ops[0], ast.NotIn) and ast.unparse(d.test.comparators[0]) == "values"]
+        if guards:
+            ctx.ok(rid, f, st, "a default is filled in only where the caller passed no value", {"guard": norm(guards[0])})
+        else:
+            ctx.violation(rid, f, st, "a default overwrites the value the caller passed for this node (no `not in values` guard)")
+
+
 RULES = [
     ("C07-R1", r1_update_var_writes_private_state, 3),
     ("C07-R2", r2_apply_does_not_write_template, 9),
     ("C07-R3", r3_array_values_by_position, 2),
     ("C07-R4", r4_edge_update_replaces_exactly_one_edge, 1),
+    ("C07-R5", r5_cached_defaults_come_from_the_template, 3),
 ]
